@@ -32,6 +32,7 @@ type Obl struct {
 	Model   string
 	InputsOK bool
 	ResultTerms []string
+	Cl          *Clause // the postcondition clause this obligation comes from (executable replay oracle)
 }
 
 type binding struct {
@@ -149,6 +150,8 @@ type FnCtx struct {
 	recordBases  map[string]string
 	revealed     map[string]bool
 	opaqueDeps   map[string][]string
+	fieldCells   map[types.Object]map[string]string
+	usesReflect  bool
 }
 
 type inputTerm struct {
@@ -240,6 +243,11 @@ func (c *FnCtx) h(st *State, base, sort string) string {
 			if strings.HasPrefix(sort, "Seq!") {
 				c.decls = append(c.decls, "(assert (>= (qlen"+sort+" "+n+") 0))")
 			}
+			if strings.HasPrefix(base, "MD!") {
+				// the nil map has no keys in every heap state
+				inner := strings.TrimSuffix(strings.TrimPrefix(sort, "(Array Int "), ")")
+				c.decls = append(c.decls, "(assert (= (select "+n+" 0) ((as const "+inner+") false)))")
+			}
 		}
 	}
 	return n
@@ -291,7 +299,7 @@ func (c *FnCtx) fieldArr(structT types.Type, field string) (string, string) {
 	if ft == nil {
 		panic(unsupported{"no field " + field})
 	}
-	bn := "F!" + c.tt.key(structT) + "!" + field
+	bn := "F!" + c.tt.key(structT) + "!" + symField(field)
 	c.baseElem[bn] = ft
 	return bn, "(Array Int " + c.tt.sortOf(ft) + ")"
 }
@@ -333,6 +341,9 @@ func (c *FnCtx) zero(t types.Type) string {
 	}
 	if isBufferType(t) {
 		return `""`
+	}
+	if isReflectValue(t) {
+		return "inil"
 	}
 	switch u := t.Underlying().(type) {
 	case *types.Basic:
@@ -393,6 +404,9 @@ func (c *FnCtx) typeInvAl(al string, term string, t types.Type, depth int, sts .
 	}
 	if isBufferType(t) {
 		return "true"
+	}
+	if isReflectValue(t) {
+		return c.typeInvAl(al, term, types.NewInterfaceType(nil, nil), depth, sts...)
 	}
 	switch u := t.Underlying().(type) {
 	case *types.Basic:
@@ -827,6 +841,115 @@ func (c *FnCtx) declareLocal(st *State, obj types.Object, term string) {
 		return
 	}
 	st.vars[obj] = &binding{term: c.name(st, obj.Name(), term, c.tt.sortOf(obj.Type())), typ: obj.Type()}
+	if v != nil {
+		// `&v.f` on a struct-valued local that is never assigned after its declaration: the field gets a cell of its
+		// own, allocated here and holding the field's value (the variable itself stays a value)
+		for _, f := range c.fieldAddrTaken(v) {
+			ft := fieldType(v.Type(), f)
+			if ft == nil {
+				continue
+			}
+			r := c.newRef(st, "cell_"+v.Name()+"_"+f)
+			n, s := c.cellArr(ft)
+			c.tt.sortOf(v.Type())
+			c.setH(st, n, s, store(c.h(st, n, s), r, "("+c.tt.fieldAcc(v.Type(), f)+" "+st.vars[obj].term+")"))
+			if c.fieldCells == nil {
+				c.fieldCells = map[types.Object]map[string]string{}
+			}
+			if c.fieldCells[obj] == nil {
+				c.fieldCells[obj] = map[string]string{}
+			}
+			c.fieldCells[obj][f] = r
+		}
+	}
+}
+
+// fieldAddrTaken returns the fields f of struct-valued local v for which `&v.f` occurs in the current function.
+// It panics (unsupported) when such a variable is assigned after its declaration or when the function stores
+// through a pointer of the field's type (the cell and the variable could then disagree).
+func (c *FnCtx) fieldAddrTaken(v *types.Var) []string {
+	if _, ok := v.Type().Underlying().(*types.Struct); !ok || c.fr == nil || c.fr.fd == nil || c.fr.fd.Body == nil {
+		return nil
+	}
+	if c.eng.fieldAddrCache == nil {
+		c.eng.fieldAddrCache = map[*ast.FuncDecl]map[types.Object][]string{}
+	}
+	fd := c.fr.fd
+	m, ok := c.eng.fieldAddrCache[fd]
+	if !ok {
+		m = map[types.Object][]string{}
+		info := c.fr.pkg.Info
+		assigned := map[types.Object]bool{}
+		var starStores []types.Type
+		root := func(e ast.Expr) types.Object {
+			for {
+				switch x := e.(type) {
+				case *ast.ParenExpr:
+					e = x.X
+					continue
+				case *ast.SelectorExpr:
+					e = x.X
+					continue
+				case *ast.Ident:
+					return info.Uses[x]
+				}
+				return nil
+			}
+		}
+		ast.Inspect(fd.Body, func(n ast.Node) bool {
+			switch x := n.(type) {
+			case *ast.UnaryExpr:
+				if x.Op == token.AND {
+					if se, ok := unparen(x.X).(*ast.SelectorExpr); ok {
+						if id, ok := unparen(se.X).(*ast.Ident); ok {
+							if o := info.Uses[id]; o != nil {
+								if _, isStruct := o.Type().Underlying().(*types.Struct); isStruct {
+									m[o] = append(m[o], se.Sel.Name)
+								}
+							}
+						}
+					}
+				}
+			case *ast.AssignStmt:
+				for _, l := range x.Lhs {
+					if st, ok := unparen(l).(*ast.StarExpr); ok {
+						if pt, ok := info.TypeOf(st.X).Underlying().(*types.Pointer); ok {
+							starStores = append(starStores, pt.Elem())
+						}
+						continue
+					}
+					if o := root(l); o != nil {
+						assigned[o] = true
+					}
+				}
+			case *ast.IncDecStmt:
+				if o := root(x.X); o != nil {
+					assigned[o] = true
+				}
+			}
+			return true
+		})
+		for o, fs := range m {
+			bad := assigned[o]
+			for _, f := range fs {
+				ft := fieldType(o.Type(), f)
+				for _, st := range starStores {
+					if ft != nil && types.Identical(st, ft) {
+						bad = true
+					}
+				}
+			}
+			if bad {
+				m[o] = []string{"!"}
+			}
+		}
+		c.eng.fieldAddrCache[fd] = m
+	}
+	fs := m[v]
+	if len(fs) == 1 && fs[0] == "!" {
+		panic(unsupported{"address of a field of local " + v.Name() + " that is also assigned (interior pointers are not modelled)"})
+	}
+	return fs
 }
 
 func (c *FnCtx) assignVar(st *State, obj types.Object, term string, pos token.Pos) {
